@@ -70,17 +70,19 @@ theorem allOk_ite (c : Prop) [Decidable c] (l1 l2 : List Access) (h1 : c → all
 
 /-! ## pieces -/
 
-theorem hintAcc_ok (K : Lvl) (what : String) (h : Int) (h0 : 0 ≤ h) (hn : 20 ≤ K.nqr) : allOk (hintAcc K what h) = true := by
+theorem hintAcc_ok (K : Lvl) (lo : Bool) (thr : Nat) (what : String) (h : Int) (h0 : 0 ≤ h) (hn : thr ≤ K.nqr) :
+    allOk (hintAcc K lo thr what h) = true := by
   unfold hintAcc
   split
   · simp only [allOk_cons, allOk_nil, Access.ok, Bool.and_true, Bool.and_eq_true, decide_eq_true_eq]
     omega
   · rfl
 
-theorem fromHint_ok (K : Lvl) (tag : String) (fArg h0 h1 : Int) (hh0 : 0 ≤ h0) (hh1 : 0 ≤ h1) (hn : 20 ≤ K.nqr)
+theorem fromHint_ok (K : Lvl) (tag : String) (fArg h0 h1 : Int) (hh0 : 0 ≤ h0) (hh1 : 0 ≤ h1)
+    (hn : K.hintThrP ≤ K.nqr ∧ K.hintThrQ ≤ K.nqr)
     (hf : 0 ≤ fArg) : allOk (fromHint K tag fArg h0 h1) = true := by
   unfold fromHint
-  rw [allOk_append, allOk_append, hintAcc_ok K _ h0 hh0 hn, hintAcc_ok K _ h1 hh1 hn]
+  rw [allOk_append, allOk_append, hintAcc_ok K _ _ _ h0 hh0 hn.1, hintAcc_ok K _ _ _ h1 hh1 hn.2]
   simp only [allOk_cons, allOk_nil, Access.ok, Bool.and_true, Bool.true_and, decide_eq_true_eq]
   omega
 
@@ -97,7 +99,7 @@ theorem matApp_ok (K : Lvl) (tag : String) (fArg : Int) (h0 : 0 ≤ fArg) (h1 : 
 /-! ## well-formedness of a level (decidable; evaluated by the kernel on the generated tables) -/
 
 def wfCommon (K : Lvl) : Bool :=
-  decide (K.radix = 64) && decide (20 ≤ K.nqr) && decide (1 ≤ K.nwField) && decide (K.nwField ≤ K.nwOrder) &&
+  decide (K.radix = 64) && decide (K.hintThrP ≤ K.nqr ∧ K.hintThrQ ≤ K.nqr) && decide (1 ≤ K.nwField) && decide (K.nwField ≤ K.nwOrder) &&
   decide (K.f < 2 ^ 20) && decide (K.f ≤ 64 * K.nwField)
 
 /-- dim2, numeric side conditions -/
@@ -131,7 +133,8 @@ theorem range_all {p : Nat → Bool} {n : Nat} (h : (List.range n).all p = true)
 theorem bodyDim2_ok (K : Lvl) (hK : wfDim2 K = true) (pk : RawPk) (s : RawSig) (hs : sigInRangeDim2 K pk s = true) :
     allOk (bodyDim2 K pk s) = true := by
   simp only [wfDim2, wfDim2Num, wfDim2Ev, wfDim2Th, wfCommon, Bool.and_eq_true, decide_eq_true_eq, and_assoc] at hK
-  obtain ⟨hr, hnq, hnf1, hnfo, hf20, hf64, hbtf, hrf, hmt0, hmtr, hE, hT⟩ := hK
+  obtain ⟨hr, hnqP, hnqQ, hnf1, hnfo, hf20, hf64, hbtf, hrf, hmt0, hmtr, hE, hT⟩ := hK
+  have hnq := And.intro hnqP hnqQ
   simp only [sigInRangeDim2, pkInRange, inU, Bool.and_eq_true, decide_eq_true_eq, Bool.not_eq_true', and_assoc] at hs
   obtain ⟨_, _, hp0, hp1, _, _, hbt0, hbt1, ht0, ht1, ha0, ha1, hc0, hc1, _, _, hch0, hch1, _⟩ := hs
   -- the two table-driven traversals, from the kernel-evaluated facts
@@ -174,7 +177,8 @@ theorem bodyDim2_ok (K : Lvl) (hK : wfDim2 K = true) (pk : RawPk) (s : RawSig) (
 theorem bodyHeur_ok (K : Lvl) (hK : wfHeur K = true) (pk : RawPk) (s : RawSigH) (hs : sigInRangeHeur K pk s = true) :
     allOk (bodyHeur K pk s) = true := by
   simp only [wfHeur, wfHeurNum, wfHeurEv, wfHeurTh, wfCommon, Bool.and_eq_true, decide_eq_true_eq, and_assoc] at hK
-  obtain ⟨hr, hnq, hnf1, hnfo, hf20, hf64, hbf, hcf, hmt0, hmtc, hmtb, hE, hT⟩ := hK
+  obtain ⟨hr, hnqP, hnqQ, hnf1, hnfo, hf20, hf64, hbf, hcf, hmt0, hmtc, hmtb, hE, hT⟩ := hK
+  have hnq := And.intro hnqP hnqQ
   simp only [sigInRangeHeur, pkInRange, inU, Bool.and_eq_true, decide_eq_true_eq, Bool.not_eq_true', and_assoc] at hs
   obtain ⟨_, _, hp0, hp1, _, _, ht0, ht1, ha0, ha1, _⟩ := hs
   have htN : s.trl = ((s.trl.toNat : Nat) : Int) := by omega
